@@ -83,7 +83,9 @@ F11 == {Case(Many(n), c, "none", -1, {}, "none", -1) : n \in {33, 40, 70},
 (* first byte, its first half, the hello and the first reply) arrives ahead of SSH_MSG_CHANNEL_SUCCESS                  *)
 F12 == {[Case(<<b>>, {}, "none", -1, {}, "none", -1) EXCEPT !.hello_close_at = -1] @@ [early |-> e] :
           b \in {<<"x">>, <<"]", "]", ">">>}, e \in {"all", "one-byte", "half", "all-but-one"}}
-Cases == CASE Family = "F13" -> F13 [] Family = "F12" -> F12 [] Family = "F7" -> F7 [] Family = "F10" -> F10 [] Family = "F11" -> F11 [] Family = "F8" -> F8 [] Family = "F9" -> F9 [] Family = "F6" -> F6 [] Family = "F1" -> F1 [] Family = "F2" -> F2 [] Family = "F3" -> F3
+(* a slow peer: its hello comes in two pieces six seconds apart (longer than any "still waiting" timer a client may run) *)
+F14 == {[Case(<<<<"x">>>>, {}, "none", -1, {h}, "none", -1) EXCEPT !.close_at = -1] @@ [hello_pause_ms |-> 6000] : h \in {1, HelloLen \div 2, HelloLen - 1}}
+Cases == CASE Family = "F14" -> F14 [] Family = "F13" -> F13 [] Family = "F12" -> F12 [] Family = "F7" -> F7 [] Family = "F10" -> F10 [] Family = "F11" -> F11 [] Family = "F8" -> F8 [] Family = "F9" -> F9 [] Family = "F6" -> F6 [] Family = "F1" -> F1 [] Family = "F2" -> F2 [] Family = "F3" -> F3
            [] Family = "F4" -> F4 [] Family = "F5" -> F5
 ASSUME PrintT(<<"GEN", ToJson([cases |-> Cases])>>)
 VARIABLE dummy
